@@ -1,6 +1,7 @@
 import Octo.Lemmas.TyTypeOf
 import Octo.Lemmas.TyNonNull
 import Octo.Lemmas.TyInter
+import Octo.Lemmas.TyRecFree
 /-!
 # C10 — Type algebra laws hold
 
@@ -81,6 +82,14 @@ theorem sum_sound (n : Nat) (a b c : Ty) (h : typeSumF n a b = some c) (hok : sh
   · exact Ty.is_sound h1 v hv
   · exact Ty.is_sound h2 v hv
 
+/-- a declarative sufficient condition: types without structs and tuples (scalars, lists, unions of those) are
+    always shape compatible — for them the sum is an upper bound without further hypothesis -/
+theorem sum_upper_recfree (n : Nat) (a b c : Ty) (h : typeSumF n a b = some c) (na : noRec a = true)
+    (nb : noRec b = true) : a.is c = .is ∧ b.is c = .is ∧ noRec c = true :=
+  have ⟨hok, nc⟩ := recFree_F n a b c h na nb
+  have ⟨h1, h2⟩ := sum_upper_partial n a b c h hok
+  ⟨h1, h2, nc⟩
+
 /-- `TypeSum` of well-formed types is well formed -/
 theorem sum_wf (n : Nat) (a b c : Ty) (h : typeSumF n a b = some c) (wa : wf a = true) (wb : wf b = true) :
     wf c = true := (wfFor_F n a b c h wa wb).1
@@ -130,6 +139,11 @@ theorem nonNullable_alts (alts : List Ty) :
 /-- every value matches the type it reports, provided the element chains of its lists are shape compatible -/
 theorem typeOf_conforms (v : Value) (hok : v.typeOfShapeOk = true) (t : Ty) (ht : v.typeOf = some t) :
     conforms t v = true := typeOf_conforms_aux v.size v (Nat.le_refl _) hok t ht
+
+/-- … unconditionally for values without struct and tuple parts (any nesting of lists of scalars) -/
+theorem typeOf_conforms_recfree (v : Value) (hv : v.noRecV = true) (t : Ty) (ht : v.typeOf = some t) :
+    conforms t v = true :=
+  typeOf_conforms v (typeOf_recFree_aux v.size v (Nat.le_refl _) hv t ht).1 t ht
 
 /-! ## The full-strength statement -/
 
@@ -259,6 +273,11 @@ example : nonNullable (.union [.null]) = .union [] ∧ nonNullable .null = .null
 def vOk : Value := .list [.tuple [.int 1, .null], .tuple [.float 0, .str [97]]]
 example : vOk.typeOfShapeOk = true := by decide
 example : vOk.typeOf = some (.list (.tuple [.union [.int, .float], .union [.null, .str]])) := rfl
+-- record-free operands / values: no side condition at all
+example : noRec (.union [.null, .list (.union [.int, .str])]) = true ∧ noRec (.list (.list .float)) = true := by decide
+example : (Value.list [.list [.int 1, .null], .list [], .list [.str [97]]]).noRecV = true := by decide
+example : (Value.list [.list [.int 1, .null], .list [], .list [.str [97]]]).typeOf =
+    some (.list (.list (.union [.null, .int, .str]))) := rfl
 -- the default fuel of `typeSum` is ample for these (the driver would print `fuel` otherwise)
 example : (typeSum ex3 ex4).isSome = true ∧ (typeSum sx sy).isSome = true := by decide
 
